@@ -34,6 +34,12 @@ inductive Cmp where
   | lt | le | gt | ge
   deriving DecidableEq, Repr, Inhabited
 
+/-- The unary real functions `real_interval_eval` / `real_approx_eval` know by name (constants of type
+real ⇒ real); the exact evaluators treat an application of one of them like any other unknown term. -/
+inductive Fn where
+  | sqrt | sin | cos | tan | cot | sec | csc | log | exp | abs | atn
+  deriving DecidableEq, Repr, Inhabited
+
 /-- Arithmetic goal terms: exactly the shapes the evaluators dispatch on; everything else is an
 `atom` (with its type and whether it contains a free variable). -/
 inductive AExpr where
@@ -57,6 +63,8 @@ inductive AExpr where
   | tru
   | fls
   | atom (T : Ty) (id : Nat) (hasVar : Bool)
+  | fn (f : Fn) (a : AExpr)          -- `f a` with `f :: real ⇒ real` one of the named functions
+  | pi                               -- the constant `pi :: real`
   deriving DecidableEq, Repr, Inhabited
 
 inductive Err where
@@ -126,11 +134,13 @@ def typeOf : AExpr → Ty
   | .divide _ _ | .inverse _ => .real
   | .eq _ _ _ | .cmp _ _ _ _ | .neg _ | .tru | .fls => .bool
   | .atom T _ _ => T
+  | .fn _ _ | .pi => .real
 
 /-- `checked_get_type` succeeds (every constant is used at an instance of its declared type and
 every application is type-correct). -/
 def wt : AExpr → Bool
-  | .zero _ | .one _ | .tru | .fls | .atom _ _ _ => true
+  | .zero _ | .one _ | .tru | .fls | .atom _ _ _ | .pi => true
+  | .fn _ a => wt a && typeOf a == .real
   | .bit0 a | .bit1 a | .suc a => wt a && typeOf a == .nat
   | .ofNat _ a => wt a && typeOf a == .nat
   | .ofInt a => wt a && typeOf a == .int
@@ -143,9 +153,9 @@ def wt : AExpr → Bool
   | .neg a => wt a && typeOf a == .bool
 
 def hasVars : AExpr → Bool
-  | .zero _ | .one _ | .tru | .fls => false
+  | .zero _ | .one _ | .tru | .fls | .pi => false
   | .atom _ _ v => v
-  | .bit0 a | .bit1 a | .suc a | .ofNat _ a | .ofInt a | .uminus _ a | .inverse a | .neg a => hasVars a
+  | .bit0 a | .bit1 a | .suc a | .ofNat _ a | .ofInt a | .uminus _ a | .inverse a | .neg a | .fn _ a => hasVars a
   | .plus _ a b | .minus _ a b | .times _ a b | .divide a b | .power _ a b | .eq _ a b
   | .cmp _ _ a b => hasVars a || hasVars b
 
@@ -645,5 +655,6 @@ def den (ρ : Nat → Val) : AExpr → Option Val
   | .tru => some (.b true)
   | .fls => some (.b false)
   | .atom T i _ => if (ρ i).ty = T then some (ρ i) else none
+  | .fn _ _ | .pi => none              -- no value in the ℚ model
 
 end Holpy.C05
